@@ -327,6 +327,21 @@ Qed.
 Lemma in_done_cbs_task b : ~ In (QTask b) (done_cbs cb).
 Proof. unfold done_cbs. destruct cb; simpl; intuition discriminate. Qed.
 
+Definition harmless (it : qitem) : Prop :=
+  match it with QTask _ | QUpdate | QWakeup | QSetState => False | _ => True end.
+
+Lemma Inv_enq l s : Forall harmless l -> Inv s -> Inv (enq l s).
+Proof.
+  intros Hl (I1 & I2 & I3 & I4 & I5 & I6 & I7). rewrite Forall_forall in Hl.
+  unfold Inv, goodS, enq in *; simpl. repeat split; auto.
+  - intros b Hin. apply in_app_or in Hin. destruct Hin as [Hin|Hin]; auto. exfalso. apply (Hl _ Hin).
+  - intros Hq. apply I7.
+    destruct Hq as [Hq|[Hq|Hq]]; apply in_app_or in Hq; destruct Hq as [Hq|Hq]; auto; exfalso; apply (Hl _ Hq).
+Qed.
+
+Lemma Inv_set_writing v s : Inv s -> Inv (set_writing v s).
+Proof. unfold Inv, goodS; simpl; auto. Qed.
+
 Lemma Inv_run_item it r s : Inv s -> Qok s -> s_q s = it :: r -> Inv (run_item kd cb it (set_q r s)).
 Proof.
   intros I K Eq.
@@ -345,11 +360,10 @@ Proof.
   - assert (G : goodS s b). { destruct I as (_ & _ & I3 & _). apply I3. rewrite Eq; left; auto. }
     destruct I0 as (I1 & I2 & I3 & I4 & I5 & I6 & I7). destruct kd.
     + unfold Inv, goodS in *; simpl in *. repeat split; auto. intros b' E. inversion E; subst; auto.
-    + destruct (s_store s) eqn:Es; unfold Inv, goodS, enq in *; simpl in *; rewrite ?Es in *.
-      * repeat split; auto; try discriminate.
-        intros b' Hin. apply in_app_or in Hin. destruct Hin as [Hin|Hin]; auto.
-        exfalso; eapply in_done_cbs_task; eauto.
-      * repeat split; auto; try discriminate.
+    + change (s_store (set_q r s)) with (s_store s). destruct (s_store s) eqn:Es.
+      * apply Inv_enq; [unfold fail_cbs; destruct cb; repeat constructor|].
+        unfold Inv, goodS in *; simpl in *. repeat split; auto.
+      * unfold Inv, goodS, enq in *; simpl in *; rewrite ?Es in *. repeat split; auto; try discriminate.
         -- intros b' Hin. apply in_app_or in Hin. destruct Hin as [Hin|Hin]; auto.
            exfalso; eapply in_done_cbs_task; eauto.
         -- intros b' E. inversion E; subst; auto.
@@ -365,6 +379,9 @@ Proof.
   - destruct I as (_ & _ & _ & _ & _ & _ & I7). assert (Sn : s_store s <> None) by (apply I7; rewrite Eq; simpl; auto).
     destruct I0 as (I1 & I2 & I3 & I4 & I5 & I6 & I7'). unfold Inv, goodS in *; simpl in *. repeat split; auto.
   - destruct I0 as (I1 & I2 & I3 & I4 & I5 & I6 & I7'). unfold Inv, goodS in *; simpl in *. repeat split; auto.
+  - apply Inv_enq; auto. repeat constructor.
+  - apply Inv_enq; auto. unfold fail_cbs; destruct cb; repeat constructor.
+  - apply Inv_set_writing; auto.
 Qed.
 
 Lemma Qok_save_verified b s : Qok s -> Qok (save_verified kd b s).
@@ -383,6 +400,9 @@ Qed.
 Lemma done_cbs_no_wfc i : ~ In (QWfc i) (done_cbs cb).
 Proof. unfold done_cbs. destruct cb; simpl; intuition discriminate. Qed.
 
+Lemma fail_cbs_no_wfc i : ~ In (QWfc i) (fail_cbs cb).
+Proof. unfold fail_cbs. destruct cb; simpl; intuition discriminate. Qed.
+
 Lemma Qok_run_item it r s : Inv s -> Qok s -> s_q s = it :: r -> Qok (run_item kd cb it (set_q r s)).
 Proof.
   intros I K Eq.
@@ -396,11 +416,14 @@ Proof.
     apply Qok_save_verified. apply Qok_close_others; auto.
   - destruct kd. eapply Qok_grow; [| | |exact K0]; auto.
     change (s_store (set_q r s)) with (s_store s).
-    destruct (s_store s); apply Qok_enq; try apply done_cbs_no_wfc; auto.
+    destruct (s_store s); apply Qok_enq; try apply done_cbs_no_wfc; try apply fail_cbs_no_wfc; auto.
   - apply Qok_enq; auto. intros i Hq. simpl in Hq; intuition discriminate.
   - auto.
   - apply Qok_enq; auto. apply done_cbs_no_wfc.
   - eapply Qok_grow; [| | |exact K0]; auto.
+  - eapply Qok_grow; [| | |exact K0]; auto.
+  - apply Qok_enq; auto. intros i Hq. simpl in Hq; intuition discriminate.
+  - apply Qok_enq; auto. apply fail_cbs_no_wfc.
   - eapply Qok_grow; [| | |exact K0]; auto.
 Qed.
 
@@ -435,7 +458,7 @@ Notation step := (step H h kd cb).
 Notation run := (run H h kd cb).
 
 (* the operations other than the two resets (a consuming read, delete()) *)
-Definition core_op (o : op) : Prop := match o with Read | Delete => False | _ => True end.
+Definition core_op (o : op) : Prop := match o with Read | Delete | IoFail => False | _ => True end.
 Definition core_ops (ops : list op) : Prop := Forall core_op ops.
 
 Lemma Inv_step_core o s : core_op o -> Inv s -> Qok s -> Inv (fst (step o s)).
@@ -449,6 +472,8 @@ Proof.
   - apply Inv_iter; auto.
   - apply Inv_iter; auto.
   - apply Inv_io_done; auto.
+  - simpl; auto.
+  - simpl; auto.
   - simpl; auto.
 Qed.
 
@@ -474,6 +499,8 @@ Proof.
   - unfold io_done. destruct (s_io s); auto. apply Qok_enq.
     intros i Hq. simpl in Hq; intuition discriminate.
     eapply Qok_grow; [| | |exact K]; auto.
+  - simpl; auto.
+  - simpl; auto.
   - simpl; auto.
 Qed.
 
@@ -520,6 +547,9 @@ Proof.
   - unfold read_blob. destruct (s_verified s); auto. destruct (s_store s); auto. destruct kd; auto.
   - contradiction.
   - simpl; auto.
+  - simpl; auto.
+  - simpl; auto.
+  - unfold io_fail. destruct (s_io s); auto.
 Qed.
 
 (* an accepted length changes by nothing but delete() *)
@@ -757,9 +787,9 @@ Proof. intros Hn. unfold set_length. destruct (s_len s); [apply same_ctl_refl|co
 (* counting invariant: at most one save in flight, completion callback at most once           *)
 (* ------------------------------------------------------------------------------------------ *)
 Definition is_task it := match it with QTask _ => true | _ => false end.
-Definition is_ss it := match it with QSetState => true | _ => false end.
-Definition is_wk it := match it with QWakeup => true | _ => false end.
-Definition is_up it := match it with QUpdate => true | _ => false end.
+Definition is_ss it := match it with QSetState | QSetStateF => true | _ => false end.
+Definition is_wk it := match it with QWakeup | QWakeupF => true | _ => false end.
+Definition is_up it := match it with QUpdate | QUpdateF => true | _ => false end.
 Definition is_cp it := match it with QCompleted => true | _ => false end.
 Definition cnt (p : qitem -> bool) (q : list qitem) : nat := length (filter p q).
 Definition stage_q q := (cnt is_task q + cnt is_ss q + cnt is_wk q + cnt is_up q)%nat.
@@ -799,13 +829,35 @@ Proof.
   unfold stage_q. intros Z Hin. repeat split; eapply cnt_zero_in; eauto; lia.
 Qed.
 
+(* a callback of the SUCCESSFUL tail of a save (the bytes are stored) is queued *)
+Definition succ_in (q : list qitem) : Prop := In QSetState q \/ In QWakeup q \/ In QUpdate q.
+
+Lemma succ_in_app_l a b : succ_in a -> succ_in (a ++ b).
+Proof. intros [X|[X|X]]; [left|right; left|right; right]; apply in_or_app; auto. Qed.
+Lemma succ_in_app_r a b : succ_in b -> succ_in (a ++ b).
+Proof. intros [X|[X|X]]; [left|right; left|right; right]; apply in_or_app; auto. Qed.
+Lemma succ_in_cons it r : succ_in (it :: r) -> it = QSetState \/ it = QWakeup \/ it = QUpdate \/ succ_in r.
+Proof. unfold succ_in; simpl. intuition. Qed.
+Lemma succ_in_stage q : succ_in q -> (1 <= stage_q q)%nat.
+Proof.
+  intros S. destruct (Nat.eq_dec (stage_q q) 0) as [Z|Z]; [|lia]. exfalso.
+  destruct S as [X|[X|X]]; destruct (stage_zero_in _ _ Z X) as (A & B & C & D); discriminate.
+Qed.
+
 Definition Inv2 (s : state) : Prop :=
   (stage_q (s_q s) + io01 s = b2n (s_writing s))%nat
   /\ (s_verified s = true -> s_writing s = false)
-  /\ (s_store s <> None -> s_verified s = true \/ s_writing s = true).
+  /\ (s_store s <> None -> s_verified s = true \/ succ_in (s_q s)).
 
 Lemma Inv2_init : Inv2 init.
 Proof. unfold Inv2, init; simpl. repeat split; auto; try congruence. Qed.
+
+(* bytes are stored only while the blob is verified or the successful tail of its save is under way *)
+Lemma stored_busy s : Inv2 s -> s_store s <> None -> s_verified s = true \/ s_writing s = true.
+Proof.
+  intros (I1 & I2 & I4) Hs. destruct (I4 Hs) as [V|S]; auto. right.
+  pose proof (succ_in_stage _ S). destruct (s_writing s); auto. simpl in I1. lia.
+Qed.
 
 Lemma Inv2_same_ctl s s' : same_ctl s s' -> Inv2 s -> Inv2 s'.
 Proof.
@@ -813,13 +865,10 @@ Proof.
   unfold Inv2, io01. rewrite ?A1, ?A2, ?A3, ?A4, ?A7. rewrite stage_app.
   rewrite (stage_plain l) by auto.
   unfold io01 in I1. repeat split; auto; try lia.
+  intros Hs. destruct (I4 Hs); auto. right. apply succ_in_app_l; auto.
 Qed.
 
 Lemma stage_done_cbs : stage_q (done_cbs cb) = 1%nat.
-Proof. unfold done_cbs. destruct cb; reflexivity. Qed.
-Lemma cnt_up_done_cbs : cnt is_up (done_cbs cb) = 1%nat.
-Proof. unfold done_cbs. destruct cb; reflexivity. Qed.
-Lemma cnt_cp_done_cbs : cnt is_cp (done_cbs cb) = if cb then 1%nat else O.
 Proof. unfold done_cbs. destruct cb; reflexivity. Qed.
 
 Lemma Inv2_save_verified b s : Inv2 s -> Inv2 (save_verified kd b s).
@@ -827,70 +876,80 @@ Proof.
   intros I. unfold save_verified. destruct (s_verified s) eqn:V; auto.
   destruct (writeable kd s) eqn:W; auto. destruct I as (I1 & I2 & I4).
   unfold writeable in W. apply andb_true_iff in W. destruct W as [W1 W2]. apply negb_true_iff in W1.
-  unfold Inv2, io01 in *; simpl. rewrite V, W1 in *. rewrite stage_app, ?cnt_app. simpl in *.
-  change (stage_q [QTask b]) with 1%nat. change (cnt is_cp [QTask b]) with O. change (cnt is_up [QTask b]) with O.
+  unfold Inv2, io01 in *; simpl. rewrite V, W1 in *. rewrite stage_app. simpl in *.
+  change (stage_q [QTask b]) with 1%nat.
   repeat split; auto; try congruence; try lia.
+  intros Hs. destruct (I4 Hs); auto. right. apply succ_in_app_l; auto.
 Qed.
 
 Lemma Inv2_run_item it r s : Inv2 s -> s_q s = it :: r -> Inv2 (run_item kd cb it (set_q r s)).
 Proof.
-  intros (I1 & I2 & I4) Eq. rewrite Eq in *.
-  assert (P : forall it', plain it' -> it = it' -> Inv2 (set_q r s)).
-  { intros it' Hp ->. unfold Inv2, io01 in *; simpl.
-    replace (stage_q (it' :: r)) with (stage_q r) in I1 by (destruct it'; simpl in Hp; try tauto; reflexivity).
-    repeat split; auto. }
+  intros (I1 & I2 & I4) Eq. rewrite Eq in *. rewrite stage_cons in I1.
+  assert (St : forall n, stage_q [it] = n -> (n + stage_q r + io01 s = b2n (s_writing s))%nat) by (intros n <-; exact I1).
+  assert (Wr : stage_q [it] = 1%nat -> s_writing s = true /\ s_verified s = false /\ stage_q r = 0%nat /\ s_io s = None).
+  { intros E1. specialize (St _ E1). unfold io01 in St.
+    destruct (s_writing s) eqn:W; simpl in St; [|lia].
+    repeat split; auto; try lia.
+    - destruct (s_verified s); auto; discriminate (I2 eq_refl).
+    - destruct (s_io s); auto; lia. }
+  (* a callback that is not part of a save: pop it *)
+  assert (P : stage_q [it] = 0%nat -> Inv2 (set_q r s)).
+  { intros E0. specialize (St _ E0). unfold Inv2, io01 in *; simpl. repeat split; auto.
+    intros Hs. destruct (I4 Hs) as [V|S]; auto. right.
+    apply succ_in_cons in S. destruct S as [->|[->|[->|S]]]; auto; discriminate. }
   destruct it; simpl.
-  - eapply Inv2_same_ctl; [apply same_ctl_app_w|]. eapply P; simpl; eauto. simpl; auto.
-  - eapply Inv2_same_ctl; [apply same_ctl_set_map|]. eapply P; simpl; eauto. simpl; auto.
-  - assert (I0 : Inv2 (set_q r s)) by (eapply P; simpl; eauto; simpl; auto).
+  - eapply Inv2_same_ctl; [apply same_ctl_app_w|]. apply P; reflexivity.
+  - eapply Inv2_same_ctl; [apply same_ctl_set_map|]. apply P; reflexivity.
+  - assert (I0 : Inv2 (set_q r s)) by (apply P; reflexivity).
     destruct (nth_error (s_ws s) i); auto. destruct (w_fut w); auto.
     apply Inv2_save_verified. eapply Inv2_same_ctl; [apply same_ctl_close_others|]. auto.
   - (* QTask *)
-    rewrite stage_cons in I1.
-    change (stage_q [QTask b]) with 1%nat in I1.
-    simpl plus in I1.
-    assert (Wr : s_writing s = true) by (destruct (s_writing s); simpl in I1; auto; lia).
-    assert (V : s_verified s = false) by (destruct (s_verified s); auto; rewrite I2 in Wr; auto; discriminate).
-    unfold io01 in I1. rewrite Wr in I1. simpl in I1.
-    assert (Io : s_io s = None) by (destruct (s_io s); auto; lia). rewrite Io in I1.
+    destruct (Wr eq_refl) as (W & V & Z & Io).
     destruct kd.
-    + unfold Inv2, io01; simpl. rewrite Wr, V in *. repeat split; auto; try congruence; simpl; try lia; try (destruct cb; simpl in *; lia).
-    + assert (X : Inv2 (enq (done_cbs cb) (set_q r s))).
-      { unfold Inv2, io01, enq; simpl. rewrite Wr, V, Io in *. rewrite stage_app, ?cnt_app.
-        rewrite stage_done_cbs.
-        repeat split; auto; try congruence; simpl; try lia; try (destruct cb; simpl in *; lia). }
-      destruct (s_store s) eqn:Es; auto.
-      destruct X as (X1 & X2 & X4). unfold Inv2, io01, enq in *; simpl in *. repeat split; auto.
+    + unfold Inv2, io01; simpl. rewrite W, V, Z. repeat split; auto; try congruence.
+      intros Hs. destruct (I4 Hs) as [X|S]; [congruence|]. right.
+      apply succ_in_cons in S. destruct S as [S|[S|[S|S]]]; auto; discriminate.
+    + change (s_store (set_q r s)) with (s_store s). destruct (s_store s) eqn:Es.
+      * (* bytes already there while a save starts: impossible (the blob would be verified or past this stage) *)
+        exfalso. destruct I4 as [X|S]; [congruence|congruence|].
+        apply succ_in_cons in S. destruct S as [S|[S|[S|S]]]; try discriminate.
+        pose proof (succ_in_stage _ S). lia.
+      * unfold Inv2, io01, enq; simpl. rewrite Io, W, V. rewrite stage_app, stage_done_cbs, Z.
+        repeat split; auto; try congruence. intros _. right. apply succ_in_app_r. right; right. unfold done_cbs; simpl; auto.
   - (* QSetState *)
-    rewrite stage_cons in I1.
-    change (stage_q [QSetState]) with 1%nat in I1.
-    simpl plus in I1.
-    unfold Inv2, io01, enq in *; simpl. rewrite stage_app, ?cnt_app.
-    change (stage_q [QNop; QWakeup]) with 1%nat. change (cnt is_cp [QNop; QWakeup]) with O. change (cnt is_up [QNop; QWakeup]) with O.
-    repeat split; auto; try congruence; rewrite <- ?plus_n_O; auto; try lia; try (destruct cb; simpl in *; lia).
-  - eapply P; simpl; eauto. simpl; auto.
+    destruct (Wr eq_refl) as (W & V & Z & Io).
+    unfold Inv2, io01, enq; simpl. rewrite stage_app. rewrite W, V, Io, Z.
+    change (stage_q [QNop; QWakeup]) with 1%nat.
+    repeat split; auto; try congruence. intros _. right. apply succ_in_app_r. right; left; simpl; auto.
+  - apply P; reflexivity.
   - (* QWakeup *)
-    rewrite stage_cons in I1.
-    change (stage_q [QWakeup]) with 1%nat in I1.
-    simpl plus in I1.
-    assert (Wr : s_writing s = true) by (destruct (s_writing s); simpl in I1; auto; lia).
-    assert (V : s_verified s = false) by (destruct (s_verified s); auto; rewrite I2 in Wr; auto; discriminate).
-    unfold Inv2, io01, enq in *; simpl. rewrite stage_app, ?cnt_app.
-    rewrite stage_done_cbs. rewrite V in *.
-    repeat split; auto; try congruence; try lia; try (destruct cb; simpl in *; lia).
+    destruct (Wr eq_refl) as (W & V & Z & Io).
+    unfold Inv2, io01, enq; simpl. rewrite W, V, Io. rewrite stage_app, stage_done_cbs, Z.
+    repeat split; auto; try congruence. intros _. right. apply succ_in_app_r. right; right. unfold done_cbs; simpl; auto.
   - (* QUpdate *)
-    rewrite stage_cons in I1.
-    change (stage_q [QUpdate]) with 1%nat in I1.
-    simpl plus in I1.
-    assert (Wr : s_writing s = true) by (destruct (s_writing s); simpl in I1; auto; lia).
-    assert (V : s_verified s = false) by (destruct (s_verified s); auto; rewrite I2 in Wr; auto; discriminate).
-    unfold Inv2, io01 in *; simpl. rewrite Wr, V in *. simpl in *.
-    repeat split; auto; try congruence; try lia; try (destruct cb; simpl in *; lia).
+    destruct (Wr eq_refl) as (W & V & Z & Io).
+    unfold Inv2, io01; simpl. rewrite Io, Z. repeat split; auto.
   - (* QCompleted *)
-    rewrite stage_cons in I1.
-    change (stage_q [QCompleted]) with O in I1.
-    simpl plus in I1.
-    unfold Inv2, io01 in *; simpl. repeat split; auto; try congruence; try lia; try (destruct cb; simpl in *; lia).
+    apply P; reflexivity.
+  - (* QSetStateF *)
+    destruct (Wr eq_refl) as (W & V & Z & Io).
+    unfold Inv2, io01, enq; simpl. rewrite W, V, Io. rewrite stage_app, Z.
+    change (stage_q [QNop; QWakeupF]) with 1%nat.
+    repeat split; auto; try congruence.
+    intros Hs. destruct (I4 Hs) as [X|S]; [congruence|]. right. apply succ_in_app_l.
+    apply succ_in_cons in S. destruct S as [S|[S|[S|S]]]; auto; discriminate.
+  - (* QWakeupF *)
+    destruct (Wr eq_refl) as (W & V & Z & Io).
+    unfold Inv2, io01, enq; simpl. rewrite W, V, Io. rewrite stage_app, Z.
+    replace (stage_q (fail_cbs cb)) with 1%nat by (unfold fail_cbs; destruct cb; reflexivity).
+    repeat split; auto; try congruence.
+    intros Hs. destruct (I4 Hs) as [X|S]; [congruence|]. right. apply succ_in_app_l.
+    apply succ_in_cons in S. destruct S as [S|[S|[S|S]]]; auto; discriminate.
+  - (* QUpdateF: the failed save is over, the blob is idle again *)
+    destruct (Wr eq_refl) as (W & V & Z & Io).
+    unfold Inv2, io01; simpl. rewrite V, Io, Z. repeat split; auto; try congruence.
+    intros Hs. destruct (I4 Hs) as [X|S]; [congruence|]. right.
+    apply succ_in_cons in S. destruct S as [S|[S|[S|S]]]; auto; discriminate.
 Qed.
 
 Lemma Inv2_step1 s : Inv2 s -> Inv2 (step1 kd cb s).
@@ -902,10 +961,17 @@ Proof. revert s; induction n; simpl; auto. intros; apply IHn. apply Inv2_step1; 
 Lemma Inv2_io_done s : Inv2 s -> Inv2 (io_done s).
 Proof.
   intros (I1 & I2 & I4). unfold io_done. destruct (s_io s) eqn:Ei; [|repeat split; auto].
-  unfold Inv2, io01, enq in *; simpl. rewrite Ei in *. rewrite stage_app, ?cnt_app.
-  change (stage_q [QSetState]) with 1%nat. change (cnt is_cp [QSetState]) with O. change (cnt is_up [QSetState]) with O.
-  assert (Wr : s_writing s = true) by (destruct (s_writing s); simpl in I1; auto; lia).
-  repeat split; auto; try congruence; rewrite <- ?plus_n_O; auto; try lia; try (destruct cb; simpl in *; lia).
+  unfold Inv2, io01, enq in *; simpl. rewrite Ei in *. rewrite stage_app.
+  change (stage_q [QSetState]) with 1%nat.
+  repeat split; auto; try lia. intros _. right. apply succ_in_app_r. left; simpl; auto.
+Qed.
+
+Lemma Inv2_io_fail s : Inv2 s -> Inv2 (io_fail s).
+Proof.
+  intros (I1 & I2 & I4). unfold io_fail. destruct (s_io s) eqn:Ei; [|repeat split; auto].
+  unfold Inv2, io01, enq in *; simpl. rewrite Ei in *. rewrite stage_app.
+  change (stage_q [QSetStateF]) with 1%nat.
+  repeat split; auto; try lia. intros Hs. destruct (I4 Hs); auto. right. apply succ_in_app_l; auto.
 Qed.
 
 Lemma Inv2_read s : Inv2 s -> Inv2 (fst (read_blob kd s)).
@@ -920,6 +986,17 @@ Proof.
   intros I. unfold delete_blob. destruct (settled s); auto. simpl.
   assert (X : Inv2 (close_blob s)) by (eapply Inv2_same_ctl; [apply same_ctl_close_blob|auto]).
   destruct X as (I1 & I2 & I4). unfold Inv2, io01 in *; simpl in *. repeat split; auto; try discriminate; try congruence.
+Qed.
+
+Lemma task_head_no_store s b r : Inv2 s -> s_q s = QTask b :: r -> s_store s = None.
+Proof.
+  intros (I1 & I2 & I4) Eq. destruct (s_store s) eqn:Es; auto. exfalso.
+  rewrite Eq, stage_cons in I1. change (stage_q [QTask b]) with 1%nat in I1.
+  assert (W : s_writing s = true) by (destruct (s_writing s); auto; simpl in I1; lia).
+  rewrite W in I1. simpl in I1.
+  destruct I4 as [X|S]; [congruence|rewrite (I2 X) in W; discriminate|].
+  rewrite Eq in S. apply succ_in_cons in S. destruct S as [S|[S|[S|S]]]; try discriminate.
+  pose proof (succ_in_stage _ S). lia.
 Qed.
 
 Lemma Inv2_step o s : Inv2 s -> Inv2 (fst (step o s)).
@@ -937,6 +1014,9 @@ Proof.
   - apply Inv2_read; auto.
   - apply Inv2_delete; auto.
   - simpl; auto.
+  - simpl; auto.
+  - simpl; auto.
+  - apply Inv2_io_fail; auto.
 Qed.
 
 Lemma Inv2_run ops s : Inv2 s -> Inv2 (run ops s).
@@ -1053,6 +1133,9 @@ Proof.
   - unfold delete_blob. destruct (settled s); simpl; [|apply wmono_refl].
     eapply wmono_trans; [apply wmono_close_blob|apply wmono_ws; reflexivity].
   - apply wmono_refl.
+  - apply wmono_refl.
+  - apply wmono_refl.
+  - apply wmono_ws. unfold io_fail. destruct (s_io s); auto.
 Qed.
 
 Lemma wmono_run ops s : wmono s (run ops s).
@@ -1164,6 +1247,9 @@ Proof.
   - unfold fuel, enq; simpl. rewrite qweight_app. unfold done_cbs. destruct cb; simpl; lia.
   - change (fuel (set_writing ?a (set_verified ?b ?x))) with (fuel x). lia.
   - change (fuel (set_completed ?a ?x)) with (fuel x). lia.
+  - unfold fuel, enq; simpl. rewrite qweight_app. simpl. lia.
+  - unfold fuel, enq; simpl. rewrite qweight_app. destruct cb; simpl; lia.
+  - change (fuel (set_writing ?a ?x)) with (fuel x). lia.
 Qed.
 
 Lemma iter_quiet n s : s_q s = [] -> iter kd cb n s = s.
@@ -1225,16 +1311,31 @@ Proof.
     destruct (s_store s); try discriminate. destruct E4 as [X|X]; auto; congruence.
 Qed.
 
-Lemma run_item_writing it s : s_writing s = true ->
+Lemma run_item_writing it s : it <> QUpdateF -> s_writing s = true ->
   s_writing (run_item kd cb it s) = true \/ s_verified (run_item kd cb it s) = true.
 Proof.
-  intros V. destruct it; simpl; auto.
+  intros Hnf V. destruct it; simpl; auto; try contradiction.
   - destruct (same_ctl_app_w close_handle_w i s) as (X & _). unfold close_handle. left; congruence.
   - destruct (nth_error (s_ws s) i); auto. destruct (w_fut w); auto.
     destruct (same_ctl_close_others i s) as (X & _).
     unfold save_verified. destruct (s_verified (close_others i s)) eqn:Vf; auto.
     destruct (writeable kd (close_others i s)); [simpl; auto|left; congruence].
   - destruct kd; auto. destruct (s_store s); auto.
+Qed.
+
+(* no callback of a FAILED save is queued *)
+Definition is_fail (it : qitem) : bool := match it with QSetStateF | QWakeupF | QUpdateF => true | _ => false end.
+Definition nofail (s : state) : Prop := forall it, In it (s_q s) -> is_fail it = false.
+
+Lemma nofail_grow s s' l : s_q s' = s_q s ++ l -> (forall it, In it l -> is_fail it = false) -> nofail s -> nofail s'.
+Proof. intros Q Hl N it Hin. rewrite Q in Hin. apply in_app_or in Hin. destruct Hin; auto. Qed.
+
+Lemma plain_not_fail l : Forall plain l -> forall it, In it l -> is_fail it = false.
+Proof. intros F it Hin. rewrite Forall_forall in F. specialize (F _ Hin). destruct it; simpl in *; auto; contradiction. Qed.
+
+Lemma nofail_same_ctl s s' : same_ctl s s' -> nofail s -> nofail s'.
+Proof.
+  intros (_ & _ & _ & _ & _ & _ & l & A7 & A8) N. eapply nofail_grow; eauto. apply plain_not_fail; auto.
 Qed.
 
 Lemma run_item_q it s : exists l, s_q (run_item kd cb it s) = s_q s ++ l.
@@ -1251,25 +1352,57 @@ Proof.
     destruct (s_store s); simpl; eexists; reflexivity.
 Qed.
 
-Lemma Live_step1 s : Inv2 s -> Live s -> Live (step1 kd cb s).
+Lemma nofail_sub s r : (forall it, In it r -> In it (s_q s)) -> nofail s -> nofail (set_q r s).
+Proof. intros Q N it Hin. apply N. apply Q. exact Hin. Qed.
+
+Lemma done_cbs_not_fail it : In it (done_cbs cb) -> is_fail it = false.
+Proof. unfold done_cbs. destruct cb; simpl; intros [<-|[<-|[]]] || intros [<-|[]]; reflexivity. Qed.
+
+Lemma nofail_run_item it r s : Inv2 s -> nofail s -> s_q s = it :: r -> nofail (run_item kd cb it (set_q r s)).
 Proof.
-  intros I2 Lv. unfold step1. destruct (s_q s) as [|it r] eqn:Eq; auto.
+  intros I2 N Eq.
+  assert (N0 : nofail (set_q r s)) by (apply nofail_sub; auto; intros x Hx; rewrite Eq; right; auto).
+  assert (Hh : is_fail it = false) by (apply N; rewrite Eq; left; auto).
+  destruct it; simpl in *; try discriminate; auto.
+  - eapply nofail_same_ctl; [apply same_ctl_app_w|auto].
+  - change (s_ws (set_q r s)) with (s_ws s). destruct (nth_error (s_ws s) i); auto. destruct (w_fut w); auto.
+    assert (N1 : nofail (close_others i (set_q r s))) by (eapply nofail_same_ctl; [apply same_ctl_close_others|auto]).
+    unfold save_verified. destruct (s_verified _); auto. destruct (writeable _ _); auto.
+    eapply nofail_grow; [reflexivity| |exact N1]. intros x [<-|[]]; reflexivity.
+  - destruct kd; auto. change (s_store (set_q r s)) with (s_store s).
+    rewrite (task_head_no_store s b r I2 Eq).
+    eapply nofail_grow; [reflexivity|apply done_cbs_not_fail|]. exact N0.
+  - eapply nofail_grow; [reflexivity| |exact N0]. intros x [<-|[<-|[]]]; reflexivity.
+  - eapply nofail_grow; [reflexivity|apply done_cbs_not_fail|exact N0].
+Qed.
+
+Lemma nofail_step1 s : Inv2 s -> nofail s -> nofail (step1 kd cb s).
+Proof. intros I N. unfold step1. destruct (s_q s) eqn:Eq; auto. apply nofail_run_item; auto. Qed.
+
+Lemma nofail_iter n s : Inv2 s -> nofail s -> nofail (iter kd cb n s).
+Proof. revert s; induction n; simpl; auto. intros. apply IHn. apply Inv2_step1; auto. apply nofail_step1; auto. Qed.
+
+Lemma Live_step1 s : Inv2 s -> nofail s -> Live s -> Live (step1 kd cb s).
+Proof.
+  intros I2 Nf Lv. unfold step1. destruct (s_q s) as [|it r] eqn:Eq; auto.
+  assert (Hh : it <> QUpdateF). { intros ->. assert (X : is_fail QUpdateF = false) by (apply Nf; rewrite Eq; left; auto). discriminate. }
   destruct Lv as [V|[W|Wn]].
   - left. apply run_item_verified; auto.
   - destruct (run_item_writing it (set_q r s)) as [X|X]; auto. right; left; auto. left; auto.
   - destruct Wn as (i & w & b & A & B & C). rewrite Eq in A. destruct A as [A|A].
     + subst it. simpl. change (s_ws (set_q r s)) with (s_ws s). rewrite B, C.
       destruct (save_verified_live b (close_others i (set_q r s))) as [X|X]; [|left; auto|right; left; auto].
-      destruct I2 as (_ & _ & E4).
-      destruct (same_ctl_close_others i (set_q r s)) as (X1 & X2 & _ & X4 & _). rewrite X1, X2, X4. auto.
+      destruct (same_ctl_close_others i (set_q r s)) as (X1 & X2 & _ & X4 & _). rewrite X1, X2, X4.
+      apply (stored_busy s); auto.
     + right; right. destruct (run_item_q it (set_q r s)) as (l & Q).
       eapply won_mono; [apply wmono_run_item| |exists i, w, b; repeat split; eauto].
       intros it' Hin. rewrite Q. apply in_or_app; auto.
 Qed.
 
-Lemma Live_iter n s : Inv2 s -> Live s -> Live (iter kd cb n s).
+Lemma Live_iter n s : Inv2 s -> nofail s -> Live s -> Live (iter kd cb n s).
 Proof.
-  revert s; induction n; simpl; auto. intros. apply IHn. apply Inv2_step1; auto. apply Live_step1; auto.
+  revert s; induction n; simpl; auto. intros. apply IHn. apply Inv2_step1; auto. apply nofail_step1; auto.
+  apply Live_step1; auto.
 Qed.
 
 Lemma Live_io_done s : Live s -> Live (io_done s).
@@ -1279,9 +1412,22 @@ Proof.
   right; right. exists i, w, b. simpl. repeat split; auto. apply in_or_app; auto.
 Qed.
 
-Lemma Live_step o s : core_op o -> Inv2 s -> Live s -> Live (fst (step o s)).
+Lemma nofail_step o s : core_op o -> Inv2 s -> nofail s -> nofail (fst (step o s)).
 Proof.
-  intros Co I2 Lv. destruct o; simpl in *; try contradiction.
+  intros Co I2 N. destruct o; simpl in *; try contradiction; auto.
+  - unfold set_length. destruct (s_len s); auto. destruct ((0 <=? n)%Z && (n <=? Z.of_N MAX_BLOB_SIZE)%Z); auto.
+  - eapply nofail_same_ctl; [apply same_ctl_open|auto].
+  - eapply nofail_same_ctl; [apply same_ctl_write|auto].
+  - eapply nofail_same_ctl; [apply same_ctl_app_w|auto].
+  - eapply nofail_same_ctl; [apply same_ctl_close_blob|auto].
+  - apply nofail_iter; auto.
+  - apply nofail_iter; auto.
+  - unfold io_done. destruct (s_io s); auto. eapply nofail_grow; [reflexivity| |exact N]. intros x [<-|[]]; reflexivity.
+Qed.
+
+Lemma Live_step o s : core_op o -> Inv2 s -> nofail s -> Live s -> Live (fst (step o s)).
+Proof.
+  intros Co I2 Nf Lv. destruct o; simpl in *; try contradiction.
   - unfold set_length. destruct (s_len s); auto.
     destruct ((0 <=? n)%Z && (n <=? Z.of_N MAX_BLOB_SIZE)%Z); auto.
   - eapply Live_neutral; [apply same_ctl_open|apply (wmono_step (Open k))|auto].
@@ -1292,12 +1438,14 @@ Proof.
   - apply Live_iter; auto.
   - apply Live_io_done; auto.
   - simpl; auto.
+  - simpl; auto.
+  - simpl; auto.
 Qed.
 
-Lemma Live_run ops s : core_ops ops -> Inv2 s -> Live s -> Live (run ops s).
+Lemma Live_run ops s : core_ops ops -> Inv2 s -> nofail s -> Live s -> Live (run ops s).
 Proof.
-  revert s; induction ops; simpl; auto. intros s Co I2 Lv. inversion Co; subst.
-  apply IHops; auto. apply Inv2_step; auto. apply Live_step; auto.
+  revert s; induction ops; simpl; auto. intros s Co I2 Nf Lv. inversion Co; subst.
+  apply IHops; auto. apply Inv2_step; auto. apply nofail_step; auto. apply Live_step; auto.
 Qed.
 
 (* whatever happens afterwards: when nothing is left to run and no write is pending in the executor, the
@@ -1338,10 +1486,10 @@ Proof.
   apply run_item_verified; auto.
 Qed.
 
-Lemma wins_verified s : Inv2 s -> Live s ->
+Lemma wins_verified s : Inv2 s -> nofail s -> Live s ->
   s_verified (drain kd cb (io_done (drain kd cb s))) = true.
 Proof.
-  intros I2 Lv. set (s2 := drain kd cb s).
+  intros I2 Nf Lv. set (s2 := drain kd cb s).
   assert (I22 : Inv2 s2) by (apply Inv2_iter; auto).
   assert (L2 : Live s2) by (apply Live_iter; auto).
   assert (Q2 : s_q s2 = []) by apply drain_quiescent.
@@ -1430,6 +1578,12 @@ Proof.
     apply Cl_grow with (s := set_q r s); [reflexivity|auto|exact C1].
   - assert (C1 : Cl (set_q r s)) by (apply C0; intros; discriminate). simpl.
     apply Cl_grow with (s := set_q r s); [reflexivity|auto|exact C1].
+  - assert (C1 : Cl (set_q r s)) by (apply C0; intros; discriminate). simpl.
+    apply Cl_grow with (s := set_q r s); [reflexivity| |exact C1]. intros it Hin; simpl; apply in_or_app; auto.
+  - assert (C1 : Cl (set_q r s)) by (apply C0; intros; discriminate). simpl.
+    apply Cl_grow with (s := set_q r s); [reflexivity| |exact C1]. intros it Hin; simpl; apply in_or_app; auto.
+  - assert (C1 : Cl (set_q r s)) by (apply C0; intros; discriminate). simpl.
+    apply Cl_grow with (s := set_q r s); [reflexivity|auto|exact C1].
 Qed.
 
 Lemma Cl_step1 s : Cl s -> Cl (step1 kd cb s).
@@ -1460,6 +1614,9 @@ Proof.
   - unfold delete_blob. destruct (settled s); simpl; auto.
     apply Cl_grow with (s := close_blob s); auto. apply Cl_close_blob; auto.
   - simpl; auto.
+  - simpl; auto.
+  - simpl; auto.
+  - eapply Cl_grow; [| |exact C]; unfold io_fail; destruct (s_io s); auto. intros it Hin. simpl. apply in_or_app; auto.
 Qed.
 
 Lemma Cl_run ops s : Cl s -> Cl (run ops s).
@@ -1739,6 +1896,11 @@ Proof.
     apply in_app_or in Hq; destruct Hq as [Hq|Hq]; auto. unfold done_cbs in Hq; destruct cb; simpl in Hq; intuition discriminate.
   - eapply Reg_grow_q; [| | |exact R0]; auto.
   - eapply Reg_grow_q; [| | |exact R0]; auto.
+  - eapply Reg_grow_q; [| | |exact R0]; auto. simpl. intros k j Hq.
+    apply in_app_or in Hq; destruct Hq as [Hq|Hq]; auto. simpl in Hq; intuition discriminate.
+  - eapply Reg_grow_q; [| | |exact R0]; auto. simpl. intros k j Hq.
+    apply in_app_or in Hq; destruct Hq as [Hq|Hq]; auto. unfold fail_cbs in Hq; destruct cb; simpl in Hq; intuition discriminate.
+  - eapply Reg_grow_q; [| | |exact R0]; auto.
 Qed.
 
 Lemma Reg_step1 s : Reg s -> Reg (step1 kd cb s).
@@ -1793,6 +1955,10 @@ Proof.
   - unfold delete_blob. destruct (settled s); simpl; auto.
     apply Reg_grow_q with (s := close_blob s); auto. apply Reg_close_blob; auto.
   - simpl; auto.
+  - simpl; auto.
+  - simpl; auto.
+  - eapply Reg_grow_q; [| | |exact R]; unfold io_fail; destruct (s_io s); auto.
+    simpl. intros k j Hq. apply in_app_or in Hq; destruct Hq as [Hq|Hq]; auto. simpl in Hq; intuition discriminate.
 Qed.
 
 (* ------------------------------------------------------------------------------------------ *)
@@ -1873,6 +2039,20 @@ Proof.
   destruct (close_blob_wfc_cancelled s Q i Hq) as (w' & N & F). rewrite Hn in N. inversion N; subst. congruence.
 Qed.
 
+Lemma Inv_io_fail s : Inv s -> Inv (io_fail s).
+Proof.
+  intros I. unfold io_fail. destruct (s_io s) eqn:Ei; auto.
+  apply Inv_enq; [repeat constructor|].
+  destruct I as (I1 & I2 & I3 & I4 & I5 & I6 & I7). unfold Inv, goodS in *; simpl. repeat split; auto. intros; discriminate.
+Qed.
+
+Lemma Qok_io_fail s : Qok s -> Qok (io_fail s).
+Proof.
+  intros K. unfold io_fail. destruct (s_io s); auto. apply Qok_enq.
+  intros i Hq. simpl in Hq; intuition discriminate.
+  eapply Qok_grow; [| | |exact K]; auto.
+Qed.
+
 Definition All (s : state) : Prop := Inv s /\ Inv2 s /\ Qok s /\ Reg s /\ Cl s.
 
 Lemma All_init : All init.
@@ -1885,9 +2065,11 @@ Proof.
   - destruct o; try (apply Inv_step_core; simpl; auto; fail).
     + apply Inv_read; auto.
     + apply Inv_delete; auto.
+    + apply Inv_io_fail; auto.
   - destruct o; try (apply Qok_step_core; simpl; auto; fail).
     + apply Qok_read; auto.
     + apply Qok_delete; auto.
+    + apply Qok_io_fail; auto.
 Qed.
 
 Lemma All_run ops : forall s, All s -> All (run ops s).
@@ -1922,7 +2104,8 @@ Proof. intros [Np|(i & _ & _ & A & _)] Q; auto. rewrite Q in A. destruct A. Qed.
 (* are in flight or still owed (blob neither verified nor being saved) is conserved by every  *)
 (* operation other than the two resets                                                        *)
 (* ------------------------------------------------------------------------------------------ *)
-Definition tok_q (q : list qitem) : nat := (cnt is_task q + cnt is_ss q + cnt is_wk q)%nat.
+Definition is_upF it := match it with QUpdateF => true | _ => false end.
+Definition tok_q (q : list qitem) : nat := (cnt is_task q + cnt is_ss q + cnt is_wk q + cnt is_upF q)%nat.
 Definition owed (s : state) : nat := b2n (negb (s_verified s) && negb (s_writing s)).
 Definition Psi (s : state) : nat :=
   (s_completed s + cnt is_cp (s_q s) + if cb then tok_q (s_q s) + io01 s + owed s else 0)%nat.
@@ -1938,7 +2121,13 @@ Lemma tok_plain l : Forall plain l -> tok_q l = 0%nat.
 Proof. intros Hl. unfold tok_q. rewrite !cnt_plain; auto; intros []; simpl; tauto. Qed.
 Lemma tok_done_cbs : tok_q (done_cbs cb) = 0%nat.
 Proof. unfold done_cbs. destruct cb; reflexivity. Qed.
-Lemma tok_single it : tok_q [it] = (b2n (is_task it) + b2n (is_ss it) + b2n (is_wk it))%nat.
+Lemma cnt_cp_done_cbs : cnt is_cp (done_cbs cb) = if cb then 1%nat else 0%nat.
+Proof. unfold done_cbs. destruct cb; reflexivity. Qed.
+Lemma tok_fail_cbs : tok_q (fail_cbs cb) = 1%nat.
+Proof. unfold fail_cbs. destruct cb; reflexivity. Qed.
+Lemma cnt_cp_fail_cbs : cnt is_cp (fail_cbs cb) = 0%nat.
+Proof. unfold fail_cbs. destruct cb; reflexivity. Qed.
+Lemma tok_single it : tok_q [it] = (b2n (is_task it) + b2n (is_ss it) + b2n (is_wk it) + b2n (is_upF it))%nat.
 Proof. unfold tok_q. rewrite !cnt_single. reflexivity. Qed.
 Arguments tok_q : simpl never.
 
@@ -1978,8 +2167,8 @@ Proof.
     rewrite P0. change (tok_q [QTask b]) with 1%nat. destruct kd.
     + unfold Psi, owed, io01; simpl. rewrite Io. destruct cb; lia.
     + change (s_store (set_q r s)) with (s_store s).
-      destruct (s_store s); unfold Psi, owed, io01, enq; simpl; rewrite cnt_app, tok_app, tok_done_cbs, cnt_cp_done_cbs;
-        destruct cb; simpl; lia.
+      destruct (s_store s); unfold Psi, owed, io01, enq; simpl; rewrite cnt_app, tok_app;
+        rewrite ?tok_done_cbs, ?cnt_cp_done_cbs, ?tok_fail_cbs, ?cnt_cp_fail_cbs; destruct cb; simpl; lia.
   - rewrite P0. change (tok_q [QSetState]) with 1%nat. unfold Psi, owed, io01, enq; simpl.
     rewrite cnt_app, tok_app. change (tok_q [QNop; QWakeup]) with 1%nat. change (cnt is_cp [QNop; QWakeup]) with 0%nat.
     destruct cb; lia.
@@ -1992,6 +2181,16 @@ Proof.
     rewrite P0. change (tok_q [QUpdate]) with 0%nat. unfold Psi, owed, io01; simpl. rewrite Wr.
     rewrite andb_false_r. simpl. destruct cb; lia.
   - rewrite P0. change (tok_q [QCompleted]) with 0%nat. unfold Psi, owed, io01; simpl. destruct cb; lia.
+  - rewrite P0. unfold Psi, owed, io01, enq; simpl.
+    rewrite cnt_app, tok_app. change (tok_q [QNop; QWakeupF]) with 1%nat. change (cnt is_cp [QNop; QWakeupF]) with 0%nat.
+    destruct cb; lia.
+  - rewrite P0. unfold Psi, owed, io01, enq; simpl.
+    rewrite cnt_app, tok_app, tok_fail_cbs, cnt_cp_fail_cbs. destruct cb; simpl; lia.
+  - (* QUpdateF: the token of the failed save turns back into an owed save *)
+    change (stage_q [QUpdateF]) with 1%nat in I1.
+    assert (Wr : s_writing s = true) by (destruct (s_writing s); simpl in I1; auto; lia).
+    assert (V : s_verified s = false) by (destruct (s_verified s); auto; rewrite I2 in Wr; auto; discriminate).
+    rewrite P0. unfold Psi, owed, io01; simpl. rewrite Wr, V. simpl. destruct cb; lia.
 Qed.
 
 Lemma Psi_iter n : forall s, Inv2 s -> Psi (iter kd cb n s) = Psi s.
@@ -2018,6 +2217,8 @@ Proof.
   - apply Psi_iter; auto.
   - apply Psi_iter; auto.
   - apply Psi_io_done.
+  - simpl; auto.
+  - simpl; auto.
   - simpl; auto.
 Qed.
 
@@ -2059,6 +2260,23 @@ Proof.
   split; auto.
   intros V. destruct (s_store s) as [b|] eqn:Es; [|exfalso; apply I6; auto].
   destruct (G b eq_refl) as (L & X). exists b, L. tauto.
+Qed.
+
+(* BlobManager.is_blob_verified / ensure_completed_blobs_status for the cached object say "yes" (and the latter then
+   records the blob as finished, which is what gets it announced) only for a verified blob holding the named bytes *)
+Lemma manager_yes_only_verified ops o :
+  (o = Ensure \/ exists n, o = IsVerified n) ->
+  snd (step o (run ops s0)) = RBool true ->
+  let s := run ops s0 in
+  fst (step o s) = s /\ s_verified s = true /\
+  exists b L, s_store s = Some b /\ s_len s = Some L /\ N.of_nat (length b) = L
+              /\ (0 < L <= MAX_BLOB_SIZE)%N /\ H b = h.
+Proof.
+  intros Ho E s. assert (V : s_verified s = true /\ fst (step o s) = s).
+  { assert (E1 : manager_verified kd s = true /\ fst (step o s) = s).
+    { destruct Ho as [->|(n & ->)]; simpl in *; inversion E; auto. }
+    destruct E1 as (E1 & E2). unfold manager_verified in E1. apply andb_true_iff in E1. destruct E1; auto. }
+  destruct V as (V & Fs). split; auto. split; auto. destruct (only_matching ops) as (A & _). apply A; auto.
 Qed.
 
 (* every writer result is a complete correct copy of an admissible size (its length was the accepted length when
@@ -2112,10 +2330,17 @@ Proof.
   destruct (I5 b eq_refl) as (L' & E1 & E2 & (E3 & E4)). exists b, L'. repeat split; auto.
 Qed.
 
+Lemma cnt_le p p' q : (forall it, p it = true -> p' it = true) -> (cnt p q <= cnt p' q)%nat.
+Proof.
+  intros M. unfold cnt. induction q as [|a q IH]; simpl; auto.
+  destruct (p a) eqn:E. rewrite (M a E). simpl. lia. destruct (p' a); simpl; lia.
+Qed.
+
 Lemma first_copy_wins ops i w d L :
   let s := run ops s0 in
   nth_error (s_ws s) i = Some w -> w_open w = true -> w_fut w = FPending -> s_len s = Some L -> (0 < L)%N ->
   N.of_nat (length (w_buf w ++ d)) = L -> H (w_buf w ++ d) = h ->
+  nofail s ->      (* no save that FAILED (executor job raised) is still winding down *)
   let s1 := fst (step (Write i d) s) in
   (* whatever operations (other than a reset of the object) follow: once the loop is idle and the executor has
      nothing pending, the blob is verified *)
@@ -2129,7 +2354,8 @@ Lemma first_copy_wins ops i w d L :
       /\ (s_verified s = false -> s_writing s = false ->
           s_completed s4 = (s_completed s + cnt is_cp (s_q s) + if cb then 1 else 0)%nat)).
 Proof.
-  intros s Hn O P El Lp Ln Hh s1.
+  intros s Hn O P El Lp Ln Hh Nf s1.
+  assert (Nf1 : nofail s1) by (eapply nofail_same_ctl; [apply (same_ctl_write i d s)|exact Nf]).
   destruct (winning_write ops i w d L Hn O P El Lp Ln Hh) as (_ & (w1 & N1 & F1 & _) & Q1).
   fold s in N1, Q1. fold s1 in N1, Q1.
   destruct (reach_all ops) as (I0 & J0 & _). fold s in I0, J0.
@@ -2168,7 +2394,9 @@ Proof.
     change (cnt is_cp []) with 0%nat in P4. change (tok_q []) with 0%nat in P4. change (stage_q []) with 0%nat in E1.
     simpl in *. destruct (s_io s4); [simpl in E1; lia|].
     assert (T0 : tok_q (s_q s) = 0%nat).
-    { unfold tok_q, stage_q in *. destruct (s_io s); simpl in F1'; lia. }
+    { pose proof (cnt_le is_upF is_up (s_q s)) as Le. unfold tok_q, stage_q in *.
+      assert ((cnt is_upF (s_q s) <= cnt is_up (s_q s))%nat) by (apply Le; intros []; simpl; auto; discriminate).
+      destruct (s_io s); simpl in F1'; lia. }
     rewrite T0 in P4. destruct (s_io s); [simpl in F1'; lia|]. destruct cb; simpl in *; lia.
 Qed.
 
@@ -2314,6 +2542,9 @@ Proof.
   - unfold delete_blob. destruct (settled s); simpl; auto.
     rewrite (seen0_ws (close_blob s)) by reflexivity. apply seen0_close_blob.
   - simpl; auto.
+  - simpl; auto.
+  - simpl; auto.
+  - apply seen0_ws. unfold io_fail. destruct (s_io s); auto.
 Qed.
 
 Fixpoint written (i : nat) (ops : list op) (rs : list res) : bytes :=
@@ -2423,6 +2654,9 @@ Proof.
   - destruct (read_frame s) as (E1 & _). rewrite E1. auto.
   - unfold delete_blob. destruct (settled s); simpl; auto. apply gen_close_blob; auto. apply w_hist_cancel.
   - simpl; auto.
+  - simpl; auto.
+  - simpl; auto.
+  - unfold io_fail. destruct (s_io s); auto.
 Qed.
 
 Lemma Hist_run ops : forall s, All s -> Hist s -> Hist (run ops s).
@@ -2515,8 +2749,8 @@ Qed.
 
 Lemma idle_no_store s : Inv2 s -> idle s -> s_store s = None /\ s_io s = None.
 Proof.
-  intros (I1 & _ & I4) (V & W). split.
-  - destruct (s_store s) eqn:E; auto. destruct I4 as [X|X]; congruence.
+  intros I (V & W). assert (I' := I). destruct I' as (I1 & _ & I4). split.
+  - destruct (s_store s) eqn:E; auto. destruct (stored_busy s I) as [X|X]; congruence.
   - unfold io01 in I1. rewrite W in I1. destruct (s_io s); auto. simpl in I1. lia.
 Qed.
 
@@ -2579,27 +2813,33 @@ Proof.
     + destruct (same_ctl_close_others i s) as (X1 & X2 & _). rewrite X1, X2. exact Bz.
   - rewrite (Tk b0 eq_refl). destruct D as (D1 & D2 & D3). destruct kd.
     + unfold Exd; simpl. repeat split; auto. intros x E0. inversion E0; auto.
-    + apply Exd_enq. apply done_cbs_no_task. destruct (s_store s) eqn:Es.
-      * repeat split; auto. intros x E0. apply D3. congruence.
-      * unfold Exd; simpl. repeat split; auto. intros x E0. inversion E0; auto.
+    + destruct (s_store s) eqn:Es.
+      * apply Exd_enq. intros x Hin. unfold fail_cbs in Hin. destruct cb; simpl in Hin; intuition discriminate.
+        repeat split; auto. intros x E0. apply D3. congruence.
+      * apply Exd_enq. apply done_cbs_no_task.
+        unfold Exd; simpl. repeat split; auto. intros x E0. inversion E0; auto.
   - apply Exd_enq; auto. intros x Hin. simpl in Hin. intuition discriminate.
   - auto.
   - apply Exd_enq; auto. apply done_cbs_no_task.
   - destruct D as (D1 & D2 & D3). repeat split; auto.
   - destruct D as (D1 & D2 & D3). repeat split; auto.
+  - apply Exd_enq; auto. intros x Hin. simpl in Hin. intuition discriminate.
+  - apply Exd_enq; auto. intros x Hin. unfold fail_cbs in Hin. destruct cb; simpl in Hin; intuition discriminate.
+  - destruct D as (D1 & D2 & D3). repeat split; auto.
 Qed.
 
-Lemma busy_run_item it s : busy s -> busy (run_item kd cb it s).
+Lemma busy_run_item it s : it <> QUpdateF -> busy s -> busy (run_item kd cb it s).
 Proof.
-  intros [V|W]. left; apply run_item_verified; auto.
-  destruct (run_item_writing it s W); [right|left]; auto.
+  intros Hnf [V|W]. left; apply run_item_verified; auto.
+  destruct (run_item_writing it s Hnf W); [right|left]; auto.
 Qed.
 
-Lemma Ex_run_item it r s : Inv2 s -> Ex s -> s_q s = it :: r -> Ex (run_item kd cb it (set_q r s)).
+Lemma Ex_run_item it r s : Inv2 s -> nofail s -> Ex s -> s_q s = it :: r -> Ex (run_item kd cb it (set_q r s)).
 Proof.
-  intros I2 E Eq.
+  intros I2 Nf E Eq.
+  assert (Hh : it <> QUpdateF). { intros ->. assert (X : is_fail QUpdateF = false) by (apply Nf; rewrite Eq; left; auto). discriminate. }
   destruct (s_verified s) eqn:V; [|destruct (s_writing s) eqn:W].
-  1, 2: apply Ex_busy; [apply busy_run_item; unfold busy; simpl; auto|].
+  1, 2: apply Ex_busy; [apply busy_run_item; auto; unfold busy; simpl; auto|].
   1, 2: apply Exd_run_item; [unfold busy; simpl; auto| |intros x ->; destruct E as (E1 & _); apply E1; rewrite Eq; left; auto].
   1, 2: destruct E as (E1 & E2 & E3 & _); unfold Exd; simpl; repeat split; auto; intros x Hx; apply E1; rewrite Eq; right; auto.
   (* idle: the head of the queue is a plain callback; the first result-bearing one is ours *)
@@ -2635,15 +2875,18 @@ Proof.
     + auto.
 Qed.
 
-Lemma Ex_step1 s : Inv2 s -> Ex s -> Ex (step1 kd cb s).
-Proof. intros I2 E. unfold step1. destruct (s_q s) eqn:Eq; auto. apply Ex_run_item; auto. Qed.
+Lemma Ex_step1 s : Inv2 s -> nofail s -> Ex s -> Ex (step1 kd cb s).
+Proof. intros I2 Nf E. unfold step1. destruct (s_q s) eqn:Eq; auto. apply Ex_run_item; auto. Qed.
 
-Lemma Ex_iter n s : Inv2 s -> Ex s -> Ex (iter kd cb n s).
-Proof. revert s; induction n; simpl; auto. intros. apply IHn. apply Inv2_step1; auto. apply Ex_step1; auto. Qed.
-
-Lemma Ex_step o s : core_op o -> Inv2 s -> Ex s -> Ex (fst (step o s)).
+Lemma Ex_iter n s : Inv2 s -> nofail s -> Ex s -> Ex (iter kd cb n s).
 Proof.
-  intros Co I2 E. destruct o; simpl in *; try contradiction.
+  revert s; induction n; simpl; auto. intros. apply IHn. apply Inv2_step1; auto. apply nofail_step1; auto.
+  apply Ex_step1; auto.
+Qed.
+
+Lemma Ex_step o s : core_op o -> Inv2 s -> nofail s -> Ex s -> Ex (fst (step o s)).
+Proof.
+  intros Co I2 Nf E. destruct o; simpl in *; try contradiction.
   - unfold set_length. destruct (s_len s); auto.
     destruct ((0 <=? n)%Z && (n <=? Z.of_N MAX_BLOB_SIZE)%Z); auto.
   - eapply Ex_neutral; [apply same_ctl_open|apply (wmono_step (Open k))|auto].
@@ -2658,12 +2901,14 @@ Proof.
     + intros x Ex0. inversion Ex0; subst. auto.
     + intros V W. exfalso. destruct I2 as (I1 & _). unfold io01 in I1. rewrite Ei, W in I1. simpl in I1. lia.
   - simpl; auto.
+  - simpl; auto.
+  - simpl; auto.
 Qed.
 
-Lemma Ex_run ops s : core_ops ops -> Inv2 s -> Ex s -> Ex (run ops s).
+Lemma Ex_run ops s : core_ops ops -> Inv2 s -> nofail s -> Ex s -> Ex (run ops s).
 Proof.
-  revert s; induction ops; simpl; auto. intros s Co I2 E. inversion Co; subst.
-  apply IHops; auto. apply Inv2_step; auto. apply Ex_step; auto.
+  revert s; induction ops; simpl; auto. intros s Co I2 Nf E. inversion Co; subst.
+  apply IHops; auto. apply Inv2_step; auto. apply nofail_step; auto. apply Ex_step; auto.
 Qed.
 
 End Exact.
@@ -2676,10 +2921,12 @@ Lemma first_copy_exact ops i w d L :
   N.of_nat (length (w_buf w ++ d)) = L -> H (w_buf w ++ d) = h ->
   s_verified s = false -> s_writing s = false ->
   (forall j, In (QWfc j) (s_q s) -> loser s j) ->
+  nofail s ->
   let s1 := fst (step (Write i d) s) in
   forall ops' x, core_ops ops' -> s_store (run ops' s1) = Some x -> x = w_buf w ++ d.
 Proof.
-  intros s Hn O P El Lp Ln Hh V W Lo s1 ops' x Co.
+  intros s Hn O P El Lp Ln Hh V W Lo Nf s1 ops' x Co.
+  assert (Nf1 : nofail s1) by (eapply nofail_same_ctl; [apply (same_ctl_write i d s)|exact Nf]).
   destruct (winning_write ops i w d L Hn O P El Lp Ln Hh) as (_ & (w1 & N1 & F1 & _) & _).
   fold s in N1. fold s1 in N1.
   destruct (reach_all ops) as (_ & I2 & _). fold s in I2.
@@ -2708,7 +2955,7 @@ Proof.
       + unfold losers. apply Forall_app. split.
         * apply Forall_forall. intros it Hin. destruct it; auto. eapply loser_mono; [apply (wmono_step (Write i d))|auto].
         * repeat constructor. }
-  intros Es. pose proof (Ex_run (w_buf w ++ d) ops' s1 Co I21 E) as (_ & _ & E3 & _). auto.
+  intros Es. pose proof (Ex_run (w_buf w ++ d) ops' s1 Co I21 Nf1 E) as (_ & _ & E3 & _). auto.
 Qed.
 
 End C01.
@@ -2837,6 +3084,7 @@ Lemma first_copy_wins_start ops i w d L :
   let s := run H h kd cb ops s0 in
   nth_error (s_ws s) i = Some w -> w_open w = true -> w_fut w = FPending -> s_len s = Some L -> (0 < L)%N ->
   N.of_nat (length (w_buf w ++ d)) = L -> H (w_buf w ++ d) = h ->
+  nofail s ->
   let s1 := fst (step H h kd cb (Write i d) s) in
   (forall ops', core_ops ops' -> let s' := run H h kd cb ops' s1 in s_q s' = [] -> s_io s' = None ->
      s_verified s' = true /\ exists b, s_store s' = Some b /\ H b = h /\ N.of_nat (length b) = L)
@@ -2853,6 +3101,7 @@ Lemma first_copy_exact_start ops i w d L :
   N.of_nat (length (w_buf w ++ d)) = L -> H (w_buf w ++ d) = h ->
   s_verified s = false -> s_writing s = false ->
   (forall j, In (QWfc j) (s_q s) -> loser s j) ->
+  nofail s ->
   let s1 := fst (step H h kd cb (Write i d) s) in
   forall ops' x, core_ops ops' -> s_store (run H h kd cb ops' s1) = Some x -> x = w_buf w ++ d.
 Proof. apply first_copy_exact; from_start Ok. Qed.
@@ -2868,6 +3117,15 @@ Lemma first_copy_closes_others_start ops i w d L :
   /\ (forall j wj, nth_error (s_ws s4) j = Some wj -> w_open wj = false /\ w_fut wj <> FPending)
   /\ length (s_ws s4) = length (s_ws s).
 Proof. apply first_copy_closes_others; from_start Ok. Qed.
+
+Lemma manager_yes_only_verified_start ops o :
+  (o = Ensure \/ exists n, o = IsVerified n) ->
+  snd (step H h kd cb o (run H h kd cb ops s0)) = RBool true ->
+  let s := run H h kd cb ops s0 in
+  fst (step H h kd cb o s) = s /\ s_verified s = true /\
+  exists b L, s_store s = Some b /\ s_len s = Some L /\ N.of_nat (length b) = L
+              /\ (0 < L <= MAX_BLOB_SIZE)%N /\ H b = h.
+Proof. apply manager_yes_only_verified; from_start Ok. Qed.
 
 Lemma completed_at_most_once_start ops : core_ops ops -> (s_completed (run H h kd cb ops s0) <= 1)%nat.
 Proof. apply completed_at_most_once; from_start Ok. Qed.
@@ -2932,3 +3190,42 @@ Lemma stale_reopen_old_vs_new :
   /\ (s_verified sn, map w_open (s_ws sn), map w_fut (s_ws sn))
     = (true, [false; false; false], [FErrLen; FCancelled; FOk ex_nm]).
 Proof. split; vm_compute; reflexivity. Qed.
+
+(* ------------------------------------------------------------------------------------------ *)
+(* the behaviour BEFORE fix 82794e2 (the done-callbacks of save_verified_blob ignored the outcome of the write    *)
+(* task): the three hops of a FAILED write ended like those of a successful one                *)
+(* ------------------------------------------------------------------------------------------ *)
+Definition run_item_oldfail (kd : kind) (cb : bool) (it : qitem) (s : state) : state :=
+  match it with
+  | QSetStateF => run_item kd cb QSetState s
+  | QWakeupF => run_item kd cb QWakeup s
+  | QUpdateF => run_item kd cb QUpdate s
+  | _ => run_item kd cb it s
+  end.
+Definition step1_oldfail kd cb (s : state) : state :=
+  match s_q s with [] => s | it :: r => run_item_oldfail kd cb it (set_q r s) end.
+Fixpoint iter_oldfail kd cb (n : nat) (s : state) : state :=
+  match n with O => s | S m => iter_oldfail kd cb m (step1_oldfail kd cb s) end.
+Definition step_oldfail H h kd cb (o : op) (s : state) : state :=
+  match o with
+  | Tick => iter_oldfail kd cb (length (s_q s)) s
+  | Drain => iter_oldfail kd cb (fuel s + 8) s
+  | _ => fst (step H h kd cb o s)
+  end.
+Definition run_oldfail H h kd cb (ops : list op) (s : state) : state :=
+  fold_left (fun st o => step_oldfail H h kd cb o st) ops s.
+
+Definition ex_failed_write : list op :=
+  [SetLength 3; Open 1; Write 0 ex_nm; Drain; IoFail; Drain].
+
+(* a peer delivers a complete correct copy, the disk write fails: the old code ended verified, announced, with
+   nothing stored; the repaired code ends unverified, writeable again, nothing announced - and a second delivery
+   then succeeds *)
+Lemma failed_write_old_vs_new :
+  let so := run_oldfail ex_Hid ex_nm KFile true ex_failed_write init in
+  let sn := run ex_Hid ex_nm KFile true ex_failed_write init in
+  let sr := run ex_Hid ex_nm KFile true (ex_failed_write ++ [Open 2; Write 1 ex_nm; Drain; IoDone; Drain]) init in
+  (s_verified so, s_store so, s_completed so) = (true, None, 1%nat)
+  /\ (s_verified sn, s_store sn, s_completed sn, s_writing sn, s_q sn) = (false, None, 0%nat, false, [])
+  /\ (s_verified sr, s_store sr, s_completed sr) = (true, Some ex_nm, 1%nat).
+Proof. repeat split; vm_compute; reflexivity. Qed.
